@@ -14,8 +14,11 @@ CLEAR = 1e-6
 
 
 def cluster(planes):
-    """planes: list of (n(3), d) meaning n.x + d = 0; normalise, merge coincident."""
-    out = []
+    """planes: list of (n(3), d) meaning n.x + d = 0; normalise, merge coincident
+    (planes equal after rounding to 1e-7; near-duplicates that straddle a rounding
+    boundary stay separate, which only adds a sliver whose witnesses are dropped
+    by the clearance filter)."""
+    rows = []
     for n, d in planes:
         n = np.asarray(n, float)
         L = np.linalg.norm(n)
@@ -25,17 +28,81 @@ def cluster(planes):
         k = next(i for i in range(3) if abs(n[i]) > 1e-12)
         if n[k] < 0:
             n, d = -n, -d
-        if not any(np.allclose(n, m, atol=1e-9) and abs(d - e) < 1e-8 for m, e in out):
-            out.append((n, d))
-    return out
+        rows.append((n[0], n[1], n[2], d))
+    if not rows:
+        return []
+    A = np.array(rows)
+    key = np.round(A, 7) + 0.0
+    _, idx = np.unique(key, axis=0, return_index=True)
+    return [(A[i, :3], A[i, 3]) for i in sorted(idx)]
 
 
-def witnesses(planes, eps=1e-3, extra_box=10.0):
+def witnesses2d(lines, eps=1e-3, extra=10.0):
+    """lines: list of (la, lb, lc) with la*u + lb*v + lc = 0, unit (la, lb).
+    One point (at least) in every 2-cell of the arrangement."""
+    uniq = []
+    for la, lb, lc in lines:
+        if la < -1e-12 or (abs(la) < 1e-12 and lb < 0):
+            la, lb, lc = -la, -lb, -lc
+        if not any(abs(la - x) < TOL and abs(lb - y) < TOL and abs(lc - z) < 1e-8 for x, y, z in uniq):
+            uniq.append((la, lb, lc))
+    if not uniq:
+        return np.array([[0.0137, 0.0211]])
+    pts = []
+    for li, (la, lb, lc) in enumerate(uniq):
+        q0 = np.array([-lc * la, -lc * lb])
+        t = np.array([-lb, la])
+        nn = np.array([la, lb])
+        ts = []
+        for lj, (ma, mb, mc) in enumerate(uniq):
+            if lj == li:
+                continue
+            den = ma * t[0] + mb * t[1]
+            if abs(den) < 1e-9:
+                continue
+            ts.append(-(ma * q0[0] + mb * q0[1] + mc) / den)
+        ts = sorted(ts)
+        u = []
+        for x in ts:
+            if not u or x - u[-1] > 1e-7:
+                u.append(x)
+        if not u:
+            mids = [0.0173]
+        else:
+            mids = [u[0] - extra] + [(x + y) / 2 for x, y in zip(u, u[1:])] + [u[-1] + extra]
+        for tm in mids:
+            q = q0 + tm * t
+            pts.append(q + eps * nn)
+            pts.append(q - eps * nn)
+    return np.array(pts)
+
+
+def find_prism_axis(N):
+    """A unit vector a such that every normal is parallel or perpendicular to a, or None."""
+    cands = [n for n in N]
+    for i in range(min(len(N), 6)):
+        for j in range(i + 1, min(len(N), 6)):
+            c = np.cross(N[i], N[j])
+            L = np.linalg.norm(c)
+            if L > 1e-6:
+                cands.append(c / L)
+    for a in cands:
+        dots = np.abs(N @ a)
+        if np.all((dots < 1e-9) | (dots > 1 - 1e-9)) and np.any(dots < 1e-9):
+            return a
+    return None
+
+
+def witnesses(planes, eps=1e-3, extra_box=10.0, prism=True):
     """One point (at least) in every 3-cell of the arrangement of `planes`.
 
-    3D -> 2D -> 1D recursion: for each plane, the lines it shares with the
-    others; for each line the intervals cut by the other lines; midpoints are
-    pushed off the line inside the plane (+-eps) and off the plane (+-eps).
+    General case, 3D -> 2D -> 1D recursion: for each plane, the lines it shares
+    with the others; for each line the intervals cut by the other lines;
+    midpoints are pushed off the line inside the plane (+-eps) and off the
+    plane (+-eps).  When every normal is parallel or perpendicular to one axis
+    (prism arrangements: lattices, axis-aligned decks) the arrangement is the
+    product of a 2D line arrangement and a 1D point arrangement, and the
+    witnesses are the product of their witnesses.
     Returned points keep a clearance > CLEAR from every plane.
     """
     P = cluster(planes)
@@ -44,6 +111,26 @@ def witnesses(planes, eps=1e-3, extra_box=10.0):
         return np.zeros((1, 3)) + 0.1234
     N = np.array([n for n, _ in P])
     D = np.array([d for _, d in P])
+    axis = find_prism_axis(N) if prism else None
+    if axis is not None:
+        e1 = np.cross(axis, [1, 0, 0]) if abs(axis[0]) < 0.9 else np.cross(axis, [0, 1, 0])
+        e1 /= np.linalg.norm(e1)
+        e2 = np.cross(axis, e1)
+        axial = np.abs(N @ axis) > 0.5
+        lines = [(n @ e1, n @ e2, d) for n, d in zip(N[~axial], D[~axial])]
+        W2 = witnesses2d(lines, eps, extra_box)
+        ts = sorted(-d / (n @ axis) for n, d in zip(N[axial], D[axial]))
+        u = []
+        for x in ts:
+            if not u or x - u[-1] > 1e-7:
+                u.append(x)
+        if not u:
+            mids = [0.0173]
+        else:
+            mids = [u[0] - extra_box] + [(x + y) / 2 for x, y in zip(u, u[1:])] + [u[-1] + extra_box]
+        W = np.array([w[0] * e1 + w[1] * e2 + t * axis for t in mids for w in W2])
+        f = W @ N.T + D
+        return W[(np.abs(f) > CLEAR).all(1)]
     W = []
     for i in range(m):
         n, d = N[i], D[i]
@@ -59,45 +146,15 @@ def witnesses(planes, eps=1e-3, extra_box=10.0):
             L = np.hypot(la, lb)
             if L < 1e-9:
                 continue        # parallel plane
-            la, lb, lc = la / L, lb / L, lc / L
-            if la < -1e-12 or (abs(la) < 1e-12 and lb < 0):
-                la, lb, lc = -la, -lb, -lc
-            if not any(abs(la - x) < TOL and abs(lb - y) < TOL and abs(lc - z) < 1e-8
-                       for x, y, z in lines):
-                lines.append((la, lb, lc))
-        pts2 = []
-        if not lines:
-            pts2.append((0.0137, 0.0211))
-        for li, (la, lb, lc) in enumerate(lines):
-            q0 = np.array([-lc * la, -lc * lb])
-            t = np.array([-lb, la])
-            nn = np.array([la, lb])
-            ts = []
-            for lj, (ma, mb, mc) in enumerate(lines):
-                if lj == li:
-                    continue
-                den = ma * t[0] + mb * t[1]
-                if abs(den) < 1e-9:
-                    continue
-                ts.append(-(ma * q0[0] + mb * q0[1] + mc) / den)
-            ts = sorted(ts)
-            uniq = []
-            for x in ts:
-                if not uniq or x - uniq[-1] > 1e-7:
-                    uniq.append(x)
-            if not uniq:
-                mids = [0.0173]
-            else:
-                mids = ([uniq[0] - extra_box] + [(x + y) / 2 for x, y in zip(uniq, uniq[1:])]
-                        + [uniq[-1] + extra_box])
-            for tm in mids:
-                q = q0 + tm * t
-                for s in (eps, -eps):
-                    pts2.append(tuple(q + s * nn))
-        for (u, v) in pts2:
+            lines.append((la / L, lb / L, lc / L))
+        # the push off the plane is much smaller than the push off the line, so
+        # that the point stays inside thin wedges between this plane and a plane
+        # that crosses it at a shallow angle (down to ~1 degree)
+        eps2 = eps * 0.02
+        for (u, v) in witnesses2d(lines, eps, extra_box):
             p = p0 + u * a + v * b
-            for s in (eps, -eps):
-                W.append(p + s * n)
+            W.append(p + eps2 * n)
+            W.append(p - eps2 * n)
     W = np.array(W)
     f = W @ N.T + D
     keep = (np.abs(f) > CLEAR).all(1)
